@@ -178,7 +178,7 @@ def verify_unit(unit, world_factory, timeout_s=10, max_paths=4000):
            'obligations': [], 'paths': 0, 'vacuous_paths': 0, 'errors': [], 'inlined': [], 'externs': [],
            'note': unit.note}
     try:
-        paths, stats = explore(unit, world_factory, max_paths)
+        paths, stats = explore(unit, world_factory, max_paths, getattr(unit, 'branch_timeout_ms', 3000))
     except Exception as e:
         res['errors'].append('engine crash: %s\n%s' % (e, traceback.format_exc()))
         res['wall_s'] = time.time() - t0
